@@ -27,9 +27,23 @@ def showInferErr : InferErr → String
 
 def textOfHex (h : String) : Option String := stringOfHex h
 
+mutual
+/-- member names as the (repaired) text path reads them: escapes decoded, raw text as fallback -/
+def normalizeKeys : Doc → Doc
+  | .arr xs => .arr (normalizeKeysList xs)
+  | .obj ms => .obj (normalizeKeysMembers ms)
+  | d => d
+def normalizeKeysList : List Doc → List Doc
+  | [] => []
+  | x :: xs => normalizeKeys x :: normalizeKeysList xs
+def normalizeKeysMembers : List (String × Doc) → List (String × Doc)
+  | [] => []
+  | (k, v) :: ms => (memberName (['"'] ++ k.toList ++ ['"']), normalizeKeys v) :: normalizeKeysMembers ms
+end
+
 def docOfHex (h : String) : Option Doc :=
   match textOfHex h with
-  | some t => Rfc.parseString t
+  | some t => (Rfc.parseString t).map normalizeKeys
   | none => none
 
 def docsOfHex : List String → Option (List Doc)
@@ -216,9 +230,17 @@ def step (line : String) : String :=
       | some b => if Shape.cmp a b == .eq then "ok" else "violated: serde round trip"
       | none => "violated: serde round trip"
   | ["inferdoc", h] =>
+      if h.length > 40000 then "unmodelled" else
       match textOfHex h with
       | none => "bad-text"
       | some t => showOutcomeShape (fromStr t.toList)
+  | ["p_c07", h1, h2] =>
+      match textOfHex h1, textOfHex h2 with
+      | some a, some b =>
+        (match fromStr a.toList, fromStr b.toList with
+         | .ok x, .ok y => if Shape.cmp x y == .eq then "ok" else "violated: " ++ sexp x ++ " vs " ++ sexp y
+         | x, y => "violated: " ++ showOutcomeShape x ++ " vs " ++ showOutcomeShape y)
+      | _, _ => "bad-text"
   | ["inferv", h] =>
       match docOfHex h with
       | none => "not-json"
@@ -275,9 +297,12 @@ def step (line : String) : String :=
       | none => "not-json"
       | some ds => pC03 ds
   | ["rfc", h] =>
+      if h.length > 40000 then "unmodelled" else
       match docOfHex h with
       | none => "reject"
-      | some d => "accept depth=" ++ toString d.depth
+      | some d =>
+        "accept depth=" ++ toString d.depth ++ " dup=" ++
+          (match inferDoc d with | .ok _ => "ok" | .error _ => "conflict")
   | _ => "bad-op"
 
 partial def loop (h : IO.FS.Stream) (out : IO.FS.Stream) : IO Unit := do
